@@ -138,7 +138,23 @@ def check_C04(res, scratch, tier, seed):
     check_trans(res, scratch, tier, seed, "C04", full_matrix(ones=(0, 1), costs=(1,), recs=(0,)),
                 "same families with the cost flag: denoted set = Trans!MinOf(Translations) (all parses) or one member of it (one parse); "
                 "the own cost of every abstract node is recovered as field - sum(children fields) and is part of the compared tree, "
-                "so cost fields that do not add up are rejected")
+                "so cost fields that do not add up are rejected; in addition TLC validates (ParseTrace.tla) that the recorded result under the cost flag "
+                "is the minimal-cost part of the recorded all-parses result of the same parse without the flag")
+    check_C04_pairs(res, scratch, tier, seed)
+
+
+def check_C04_pairs(res, scratch, tier, seed):
+    """Independent of the recorded losses of the all-parses DAG: the result under the cost flag must be exactly the
+    minimal-cost part (all parses) / one minimal member (one parse) of what the SAME parse denotes without the flag
+    (ParseTrace.tla clause C04, lines paired by grammar, input and settings)."""
+    builds = std_builds(scratch, tier)
+    mx = [(la, one, cost, 0, 3, 0) for la in (0, 2) for (one, cost) in ((0, 0), (0, 1), (1, 1))]
+    fams = [("T2ambP", mcgram_cfg([1], [11], 2, 2, 6, False, [1, 4, 5, 9], False), mx)]
+    if tier == "thorough":
+        fams += [("T3ambP", mcgram_cfg([1], [11], 3, 2, 5, False, [1, 4, 9], False), mx),
+                 ("T2aP", mcgram_cfg([1], [11, 12], 2, 2, 4, False, [0, 1, 4, 5, 7], False), mx[:3])]
+    for tag, cfg, m in fams:
+        run_trace_family(res, scratch, tag, cfg, m, builds, props=("C04",), timeout=3000, pair_cost=True)
 
 
 def check_C05(res, scratch, tier, seed):
